@@ -21,6 +21,8 @@ the underlining PuLP model
 # IMPORTS
 # =============================================================================
 
+import re
+
 import numpy as np
 
 import pulp
@@ -112,6 +114,14 @@ class Bool(_Var):
 # =============================================================================
 # PROBLEM ABSTRACT CLASS
 # =============================================================================
+
+
+def _natural_sort_key(var):
+    """Sort key that orders "x2" before "x10" (PuLP sorts names as text)."""
+    return [
+        int(part) if part.isdigit() else part
+        for part in re.split(r"(\d+)", var.name)
+    ]
 
 
 class _LPBase:
@@ -227,7 +237,7 @@ class _LPBase:
         objective = pulp.value(problem.objective)
 
         variables, values = [], []
-        for v in problem.variables():
+        for v in sorted(problem.variables(), key=_natural_sort_key):
             variables.append(v.name)
             values.append(v.varValue)
 
